@@ -97,6 +97,7 @@ func checkC17(r *Result) {
 	r.rule("PROC-COVERS-PRE", "every VoteExtTx field consumed by PreBlocker is compared (mismatch => REJECT) by ProcessProposal against the extractor result that PrepareProposal put there")
 	r.rule("COMMIT-INJECTED", "ProcessProposal validates and extracts from the injected extended commit, and rejects on validation failure")
 	r.rule("LOCKSTEP", "an extractor appends to all of its parallel result lists in the same basic block")
+	r.rule("PRE-ROLES", "PreBlocker hands each keeper setter the operator, and the entries at that operator's own position of the sibling lists, in the setter's parameter order; the injected tx is written at, and read from, position 0")
 	r.rule("REGISTER-ONCE", "an (operator, EVM address) pair is emitted only under 'no address registered' and the address comes from the vote's own signatures")
 	r.rule("FRESH-DECODE", "inside a loop over votes the JSON decode target is a value declared in that iteration")
 	r.rule("VOTEEXT-FAIL", "every panic-like construct reachable from the ABCI++ handlers is structurally guarded or triaged")
@@ -118,6 +119,48 @@ func checkC17(r *Result) {
 		for _, in := range b.Instrs {
 			if ld, ok := in.(*ssa.UnOp); ok && ld.Op == token.MUL {
 				if leaf, ok := leafOfRoot(ld, root); ok {
+					// a group copied into a local (`g := tx.Group`) and read field by field reads those fields
+					if _, isStruct := ld.Type().Underlying().(*types.Struct); isStruct && ld.Referrers() != nil {
+						sub := map[string]token.Pos{}
+						whole := false
+						for _, ref := range *ld.Referrers() {
+							switch x := ref.(type) {
+							case *ssa.Field:
+								sub[fieldName(x.X.Type(), x.Field)] = x.Pos()
+							case *ssa.DebugRef:
+							case *ssa.Store:
+								// the local the copy lives in, read through field addresses only
+								al, isAlloc := x.Addr.(*ssa.Alloc)
+								if !isAlloc || x.Val != ssa.Value(ld) || al.Referrers() == nil {
+									whole = true
+									break
+								}
+								for _, ar := range *al.Referrers() {
+									switch y := ar.(type) {
+									case *ssa.FieldAddr:
+										sub[fieldName(y.X.Type(), y.Field)] = y.Pos()
+									case *ssa.DebugRef:
+									case *ssa.Store:
+										if y != x {
+											whole = true
+										}
+									default:
+										whole = true
+									}
+								}
+							default:
+								whole = true
+							}
+						}
+						if !whole && len(sub) > 0 {
+							for l, pos := range sub {
+								if _, seen := fpre[l]; !seen {
+									fpre[l] = pos
+								}
+							}
+							continue
+						}
+					}
 					if _, seen := fpre[leaf]; !seen {
 						fpre[leaf] = ld.Pos()
 					}
@@ -611,6 +654,8 @@ func checkC17(r *Result) {
 		}
 		r.check(nDec >= 3, "FRESH-DECODE", "decode sites inside loops over votes", "-", fmt.Sprint(nDec))
 	}
+	checkPreRoles(r, pre, proc, prep)
+	r.minCount("PRE-ROLES", 7)
 	r.minCount("FRESH-DECODE", 4)
 	r.minCount("PROC-COVERS-PRE", 8)
 	r.minCount("LOCKSTEP", 3)
@@ -729,4 +774,197 @@ func enumValPath(P *Prog, pkgPath, name string) string {
 		}
 	}
 	return "?"
+}
+
+// checkPreRoles decides which value goes where between the injected transaction and the keeper: argument roles of the
+// three setters in PreBlocker (and of SetEVMAddresses' inner call), and the position of the injected transaction.
+func checkPreRoles(r *Result, pre, proc, prep *ssa.Function) {
+	P := r.P
+	const rule = "PRE-ROLES"
+	tm := NewTermer()
+	// leaf of the decoded VoteExtTx a term reads: "<Group>.<List>", and, for an element, the index term
+	leafOf := func(t *Term) (string, *Term) {
+		var idx *Term
+		for strings.HasPrefix(t.Op, "convert:") && len(t.Args) == 1 {
+			t = t.Args[0]
+		}
+		if t.Op == "index" && len(t.Args) == 2 {
+			idx, t = t.Args[1], t.Args[0]
+		}
+		var names []string
+		for cur := t; cur != nil; {
+			switch {
+			case strings.HasPrefix(cur.Op, "field:") && len(cur.Args) >= 1:
+				names = append([]string{cur.Op[strings.LastIndex(cur.Op, ".")+1:]}, names...)
+				cur = cur.Args[0]
+			case (cur.Op == "load" || strings.HasPrefix(cur.Op, "after-store:")) && len(cur.Args) >= 1:
+				cur = cur.Args[0]
+			default:
+				cur = nil
+			}
+		}
+		return strings.Join(names, "."), idx
+	}
+	want := map[string][]string{
+		"(*app.ProposalHandler).SetEVMAddresses":            {"OpAndEVMAddrs.OperatorAddresses", "OpAndEVMAddrs.EVMAddresses"},
+		"(x/bridge/keeper.Keeper).SetBridgeValsetSignature": {"ValsetSigs.OperatorAddresses", "ValsetSigs.Timestamps", "ValsetSigs.Signatures"},
+		"(x/bridge/keeper.Keeper).SetOracleAttestation":     {"OracleAttestations.OperatorAddresses", "OracleAttestations.Snapshots", "OracleAttestations.Attestations"},
+		"iface:app.BridgeKeeper.SetBridgeValsetSignature":   {"ValsetSigs.OperatorAddresses", "ValsetSigs.Timestamps", "ValsetSigs.Signatures"},
+		"iface:app.BridgeKeeper.SetOracleAttestation":       {"OracleAttestations.OperatorAddresses", "OracleAttestations.Snapshots", "OracleAttestations.Attestations"},
+	}
+	seen := map[string]bool{}
+	for _, cs := range P.CallSitesIn(pre) {
+		w, ok := want[cs.Callee]
+		if os.Getenv("VERIF_DEBUG") != "" {
+			fmt.Fprintln(os.Stderr, "pre callee:", cs.Callee)
+		}
+		if !ok {
+			continue
+		}
+		short := cs.Callee[strings.LastIndex(cs.Callee, ".")+1:]
+		seen[short] = true
+		args := cs.Instr.Common().Args
+		if !cs.Instr.Common().IsInvoke() {
+			args = args[1:] // receiver
+		}
+		var got []string
+		okAll := len(args) == len(w)+1
+		var idx0 *Term
+		for i := 1; i < len(args) && i-1 < len(w); i++ {
+			leaf, idx := leafOf(tm.Of(args[i]))
+			got = append(got, leaf)
+			if leaf != w[i-1] {
+				okAll = false
+			}
+			if short != "SetEVMAddresses" {
+				// elements of sibling lists at one position: the range element of the first list, index values of the others
+				if i == 1 {
+					idx0 = idx
+				} else if idx == nil || idx0 == nil || idx.V == nil || idx.V != idx0.V {
+					okAll = false
+					got[len(got)-1] += "[other position]"
+				}
+			}
+		}
+		r.check(okAll, rule, "(*app.ProposalHandler).PreBlocker # "+short+" receives "+strings.Join(w, ", "), P.Pos(cs.Pos()), "arguments read: "+strings.Join(got, ", "))
+	}
+	r.check(len(seen) == 3, rule, "(*app.ProposalHandler).PreBlocker # the three setters are called", P.Pos(pre.Pos()), fmt.Sprint(keysOf(seen)))
+	// SetEVMAddresses pairs operator i with address i
+	if fn := P.Func("(*app.ProposalHandler).SetEVMAddresses"); fn == nil {
+		r.broken("anchor SetEVMAddresses does not resolve")
+	} else {
+		r.fn(FuncName(fn))
+		n := 0
+		for _, cs := range P.CallSitesIn(fn) {
+			if !strings.HasSuffix(cs.Callee, ".SetEVMAddressByOperator") {
+				continue
+			}
+			n++
+			op, addr := tm.Of(Arg(cs.Instr, 1)), tm.Of(Arg(cs.Instr, 2))
+			elemOf := func(p *ssa.Parameter) func(x *Term) bool {
+				return func(x *Term) bool {
+					if x.Op != "index" || len(x.Args) != 2 {
+						return false
+					}
+					b := x.Args[0]
+					for b.Op == "load" && len(b.Args) == 1 {
+						b = b.Args[0]
+					}
+					return b.V == ssa.Value(p)
+				}
+			}
+			opIdx, adIdx := op.Find(elemOf(fn.Params[2])), addr.Find(elemOf(fn.Params[3]))
+			if os.Getenv("VERIF_DEBUG") != "" {
+				fmt.Fprintf(os.Stderr, "setevm0: %v | %v | %v %v\n", op, addr, opIdx != nil, adIdx != nil)
+			}
+			ok := opIdx != nil && opIdx == op && adIdx != nil && opIdx.Args[1].V != nil && opIdx.Args[1].V == adIdx.Args[1].V && addr.Has("call:github.com/ethereum/go-ethereum/common.HexToAddress")
+			r.check(ok, rule, "(*app.ProposalHandler).SetEVMAddresses # operator i is registered with address i", P.Pos(cs.Pos()), "operator: "+op.Brief()+" ; address: "+clip(addr.String(), 140))
+		}
+		r.check(n == 1, rule, "(*app.ProposalHandler).SetEVMAddresses # one registration call", P.Pos(fn.Pos()), fmt.Sprint(n))
+	}
+	// position of the injected transaction
+	for _, fn := range []*ssa.Function{proc, pre} {
+		n := 0
+		for _, cs := range P.CallSitesIn(fn) {
+			if cs.Callee != "encoding/json.Unmarshal" {
+				continue
+			}
+			n++
+			a := tm.Of(Arg(cs.Instr, 0))
+			ok := a.Op == "index" && len(a.Args) == 2 && a.Args[1].Op == "const:0" && a.Args[0].HasSuffix(".Txs")
+			r.check(ok, rule, FuncName(fn)+" # decodes the transaction at position 0 of the request", P.Pos(cs.Pos()), "decoded: "+a.Brief())
+		}
+		r.check(n == 1, rule, FuncName(fn)+" # one decode", P.Pos(fn.Pos()), fmt.Sprint(n))
+	}
+	// PrepareProposal: once vote extensions are enabled, every proposal it returns starts with the encoded injected tx,
+	// followed by the request's own transactions
+	isPrepend := func(v ssa.Value) bool {
+		c, ok := v.(*ssa.Call)
+		if !ok {
+			return false
+		}
+		if b, ok := c.Call.Value.(*ssa.Builtin); !ok || b.Name() != "append" || len(c.Call.Args) != 2 {
+			return false
+		}
+		head := variadicElemValues(c.Call.Args[0])
+		if len(head) != 1 || head[0] == nil {
+			return false
+		}
+		h := tm.Of(head[0])
+		rest := tm.Of(c.Call.Args[1])
+		return h.Op == "ext:0" && h.Has("call:encoding/json.Marshal") && strings.HasPrefix(rest.Op, "field:") && strings.HasSuffix(rest.Op, "RequestPrepareProposal.Txs")
+	}
+	var txsOK func(v ssa.Value, depth int) bool
+	txsOK = func(v ssa.Value, depth int) bool {
+		if depth > 6 {
+			return false
+		}
+		if phi, ok := v.(*ssa.Phi); ok {
+			for _, e := range phi.Edges {
+				if !txsOK(e, depth+1) {
+					return false
+				}
+			}
+			return true
+		}
+		if isPrepend(v) {
+			return true
+		}
+		t := tm.Of(v)
+		return strings.HasPrefix(t.Op, "field:") && strings.HasSuffix(t.Op, "RequestPrepareProposal.Txs")
+	}
+	pp := AnalyzePaths(prep, []Atom{
+		{Name: "enabled", Stable: true, Cond: func(rel *Term) (bool, bool) {
+			if rel.Op == "<" && len(rel.Args) == 2 && rel.Args[0].Contains("VoteExtensionsEnableHeight") && rel.Args[1].Contains("RequestPrepareProposal.Height") {
+				return true, true
+			}
+			return false, false
+		}},
+		{Name: "prepended", Event: func(in ssa.Instruction) (bool, int8) {
+			if v, ok := in.(ssa.Value); ok && isPrepend(v) {
+				return true, T
+			}
+			return false, U
+		}},
+	})
+	nret, nstore := 0, 0
+	for _, b := range prep.Blocks {
+		for _, in := range b.Instrs {
+			switch x := in.(type) {
+			case *ssa.Store:
+				if fa, ok := x.Addr.(*ssa.FieldAddr); ok && strings.HasSuffix(fieldName(fa.X.Type(), fa.Field), "ResponsePrepareProposal.Txs") {
+					nstore++
+					r.check(txsOK(x.Val, 0), rule, "(*app.ProposalHandler).PrepareProposalHandler # the proposal is the request's transactions, or the encoded injected tx followed by them", P.Pos(x.Pos()), "Txs: "+clip(tm.Of(x.Val).String(), 200))
+				}
+			case *ssa.Return:
+				if len(x.Results) != 2 || DefinitelyFails(x) {
+					continue
+				}
+				nret++
+				bad := pp.Require(x, func(v map[string]bool) bool { return !v["enabled"] || v["prepended"] })
+				r.check(len(bad) == 0, rule, "(*app.ProposalHandler).PrepareProposalHandler # with vote extensions enabled the injected tx is put in front on every success path", P.Pos(x.Pos()), fmt.Sprint(bad))
+			}
+		}
+	}
+	r.check(nret >= 1 && nstore >= 1, rule, "(*app.ProposalHandler).PrepareProposalHandler # returns and Txs stores to decide", P.Pos(prep.Pos()), fmt.Sprintf("%d returns, %d stores", nret, nstore))
 }
